@@ -24,6 +24,11 @@ func (*inRange) Exit(node *Node) {
 				// zero is "in" 1..257 through 256, but not >= 1).
 				return
 			}
+			if !isSimpleOperand(n.Left) {
+				// The rewrite mentions the left operand twice: it must not
+				// contain calls that would then run twice.
+				return
+			}
 			if rng, ok := n.Right.(*BinaryNode); ok && rng.Operator == ".." {
 				if from, ok := rng.Left.(*IntegerNode); ok {
 					if to, ok := rng.Right.(*IntegerNode); ok {
@@ -51,4 +56,15 @@ func (*inRange) Exit(node *Node) {
 			}
 		}
 	}
+}
+
+// isSimpleOperand reports whether evaluating the node twice is the same as evaluating it once.
+func isSimpleOperand(node Node) bool {
+	switch n := node.(type) {
+	case *IdentifierNode, *IntegerNode, *PointerNode:
+		return true
+	case *PropertyNode:
+		return isSimpleOperand(n.Node)
+	}
+	return false
 }
